@@ -839,6 +839,8 @@ class MemoryPathIO(AbstractPathIO):
                 raise FileNotFoundError
             if dparent.type != "dir":
                 raise NotADirectoryError
+            if destination.is_relative_to(source):
+                raise OSError("Invalid argument")
             for i, node in enumerate(sparent.content):
                 if node.name == source.name:
                     sparent.content.pop(i)
